@@ -20,7 +20,7 @@ Definition run_bool := run_mode bool_prov (fun b => [(if b then 1 else 0, 0)]).
 Definition run_minmax := run_mode minmax_prov (fun _ => []).
 Definition run_dnf := run_mode dnf_prov (fun t => t).
 Definition run_tt fuel rules facts (seeds : list (fact * Q)) :=
-  run_mode (tt_prov (N.of_nat (length seeds))) (fun t => [(t, 0)]) fuel rules facts seeds.
+  run_mode (tt_prov (N.of_nat (length seeds))) (fun _ => []) fuel rules facts seeds.
 
 Definition seed_order (seeds : list (fact * Q)) : list fact := map fst (sort_seeds seeds).
 
